@@ -4,9 +4,9 @@
      forall fuel outs xs s s' tr c, xexec fuel outs xs s = Ok s' tr c ->
        (forall l, In l (reads tr)  -> is_read    (fst l) (xaccesses xs) = true) /\
        (forall l, In l (writes tr) -> is_written (fst l) (xaccesses xs) = true)
-   What is proved: the statement under `xsafe` (no CodeBlock that touches data, no pure call / IntrinsicCall
-   statement with an intent(out/inout) dummy) — the `_partial` theorems; the order part (RHS reads before
-   the LHS write) in full; and four refutations, each replayed on the implementation by the check. *)
+   What is proved: the statement under `xsafe` (no CodeBlock that touches data, no pure call with an
+   intent(out/inout) dummy; IntrinsicCall statements are covered in full since the fix 78e51fb) — the `_partial` theorems; the order part (RHS reads before
+   the LHS write) in full; and two refutations, each replayed on the implementation by the check. *)
 From Coq Require Import List ZArith Bool.
 Import ListNotations.
 From PV Require Import Fort.Syntax Fort.Sem C11.Access C11.Proofs C11.Ext C11.Order.
@@ -98,20 +98,18 @@ Theorem C11_access_refuted_codeblock :
 Proof. exact access_refuted_codeblock_. Qed.
 Print Assumptions C11_access_refuted_codeblock.
 
-Theorem C11_access_refuted_intrinsic_sub :
-  exists x outs s s' tr c l,
-    xstep 1 outs x s = Ok s' tr c /\ In l (writes tr) /\ is_written (fst l) (fst (xacc_stmt x 0)) = false.
-Proof. exact access_refuted_intrinsic_sub_. Qed.
-Print Assumptions C11_access_refuted_intrinsic_sub.
+Theorem C11_intrinsic_stmt_covers : forall fuel outs its args loc s s' tr c,
+  xstep fuel outs (XCall CIntrinsic its args) s = Ok s' tr c ->
+  bcovers tr (fst (xacc_stmt (XCall CIntrinsic its args) loc)).
+Proof. exact intrinsic_stmt_covers_. Qed.
+Print Assumptions C11_intrinsic_stmt_covers.
 
-Theorem C11_access_refuted_allocate :
+Example C11_allocate_reported_written :
   let x := XCall CIntrinsic [IOut; IOut] [EIdx 2%nat [EVar 1%nat]; EVar 4%nat] in
-  exists outs s s' tr c,
-    xstep 1 outs x s = Ok s' tr c /\ In (4%nat, []) (writes tr) /\ In (2%nat, [3%Z]) (writes tr) /\
-    is_written 4%nat (fst (xacc_stmt x 0)) = false /\ is_written 2%nat (fst (xacc_stmt x 0)) = false /\
-    is_read 1%nat (fst (xacc_stmt x 0)) = true.
-Proof. exact access_refuted_allocate_. Qed.
-Print Assumptions C11_access_refuted_allocate.
+  is_written 4%nat (fst (xacc_stmt x 0)) = true /\ is_written 2%nat (fst (xacc_stmt x 0)) = true /\
+  is_read 1%nat (fst (xacc_stmt x 0)) = true /\ snd (xacc_stmt x 0) = 1%nat.
+Proof. exact allocate_reported_written. Qed.
+Print Assumptions C11_allocate_reported_written.
 
 Theorem C11_access_refuted_pure_call :
   exists x outs s s' tr c l,
